@@ -112,6 +112,32 @@ func VH_C19_MapOrder() {
 	vreach("end")
 }
 
+// C19 H1 with symbolic identifiers: three styles whose ids are symbolic strings of 1, 2 and 2 bytes over digits and a
+// letter (so numeric-looking, mixed and alphabetic ids in every relative order), written twice with independent map
+// orders by the writers that emit styles (WebVTT, SSA): the order of the emitted styles may depend on the ids only.
+func VH_C19_MapOrderIDs() {
+	vmode("int")
+	format := 1 + choose(2)
+	s := vc19ListK(3, 0, 0)
+	ids := []string{vsymstr(1, "012a"), vsymstr(2, "012a"), vsymstr(2, "012a")}
+	vassume(vnot(veqstr(ids[1], ids[2])))
+	old := s.Styles
+	s.Styles = map[string]*Style{}
+	for i := 0; i < 3; i++ {
+		st := old["s"+string(rune('0'+i))]
+		st.ID = ids[i]
+		s.Styles[st.ID] = st
+	}
+	vreach("pre")
+	vmaporder(true)
+	b1, e1 := vc19Write(format, s)
+	b2, e2 := vc19Write(format, s)
+	vmaporder(false)
+	vassert(e1 == nil && e2 == nil, "C19 write succeeds")
+	vassert(bytes.Equal(b1, b2), "C19 map-order: same list with arbitrary style ids, same bytes")
+	vreach("end")
+}
+
 // C19 H1 for TTML: the value handed to the XML encoder is the same for every map order.
 func VH_C19_MapOrderTTML() {
 	ns := 1 + choose(vbound("styles", 2, 3))
